@@ -1438,7 +1438,9 @@ As a workaround use x.as_expr() %s y.as_expr()""" % op)
         # Try to convert immittance to a constant so that can handle V(t) / Z
         if x.is_immittance:
             try:
+                xunits = x.units
                 x = x.as_constant()
+                x.units = xunits
             except:
                 pass
 
